@@ -1,6 +1,7 @@
 package gvc
 
 import (
+	"go/types"
 	"flag"
 	"runtime/pprof"
 	"fmt"
@@ -86,7 +87,51 @@ func loadWorld() (*World, error) {
 	}
 	w := &World{P: p, C: c}
 	w.expandStructural()
+	w.valueOnlyPackages()
 	return w, nil
+}
+
+// valueOnlyPackages: functions of standard-library packages that only compute values from their arguments
+// (strings, strconv, unicode, math, path ...) and have no explicit contract get the assumed contract
+// "pure allocates" (they neither read nor write the program's heap; their results are unconstrained).
+// Exceptions - functions that write through an argument - must have an explicit contract.
+var valueOnlyPkgs = map[string]bool{"strings": true, "strconv": true, "unicode": true, "unicode/utf8": true, "unicode/utf16": true,
+	"math": true, "math/bits": true, "path": true, "html": true, "net/url": true, "encoding/hex": true, "encoding/base64": true}
+
+func (w *World) valueOnlyPackages() {
+	for _, fn := range w.P.Funcs {
+		for _, b := range fn.Blocks {
+			for _, ins := range b.Instrs {
+				ci, ok := ins.(ssa.CallInstruction)
+				if !ok {
+					continue
+				}
+				callee := ci.Common().StaticCallee()
+				if callee == nil || callee.Signature.Recv() != nil {
+					continue
+				}
+				pk := FuncPkgPath(callee)
+				if !valueOnlyPkgs[pk] {
+					continue
+				}
+				name := CanonName(callee)
+				if _, has := w.C.Funcs[name]; has {
+					continue
+				}
+				hasFunc := false
+				for i := 0; i < callee.Signature.Params().Len(); i++ {
+					if _, isSig := callee.Signature.Params().At(i).Type().Underlying().(*types.Signature); isSig {
+						hasFunc = true
+					}
+				}
+				if hasFunc {
+					continue
+				}
+				w.C.Funcs[name] = &FuncContract{Name: name, Pkg: pk, Trusted: true, External: true, Pure: true, Allocates: true, HasMod: true,
+					Nilable: map[string]bool{"result": true, "result.0": true, "result.1": true, "result.2": true}, Tags: map[string]bool{}, File: "(value-only standard package)"}
+			}
+		}
+	}
 }
 
 func (w *World) findFuncs(pat string) []*ssa.Function {
